@@ -258,6 +258,9 @@ def run(ck):
                         elif k is not None:
                             ck.ob("CONST", p, "activation_frames-init", False, "host constructed with a literal number of activation frames", "%s:%d" % (b["file"], s["line"]))
     ck.floor("CONST", "hosts initialised with MAX_ACTIVATION_FRAMES", inits, 4)
+    # the remaining call depth (and the other host counters) survive an interrupt
+    from .c13 import host_conversion_cov
+    host_conversion_cov(ck, c)
     # the limits keep their protocol values
     for name, val in (("MAX_CONTRACT_STATE", 16384), ("MAX_ACTIVATION_FRAMES", 1024), ("MAX_LOG_SIZE", 512), ("MAX_NUM_LOGS", 64),
                       ("MAX_ENTRY_SIZE", 1 << 30), ("MAX_KEY_SIZE", 1 << 30)):
